@@ -46,6 +46,7 @@ package floodsub
 //@   noframe
 //@   nosweep nil-deref
 //@   assert at call! (*FloodSub).handleValidMessage: arg2 == msg && arg3 == inner && arg2 != nil
+//@   assert at exit: ret == nil ==> called(handleValidMessage)
 
 // The spawned goroutine hands exactly that message object to each handler.
 //@ func (*FloodSub).handleValidMessage$1
